@@ -34,6 +34,10 @@ def cargo_env(purpose):
 
 def run_replay_driver(drv, keep=False):
     """drv: {crate, append: {repo_file: verif_file}, test, timeout}.  Returns (passed: bool|None, info)."""
+    # one driver at a time across all check processes: the scratch path is fixed (a warm cargo build needs the same path)
+    import fcntl
+    lock = open(SCRATCH_BASE + '.lock', 'w')
+    fcntl.flock(lock, fcntl.LOCK_EX)
     d = make_scratch('replay')
     try:
         for dst, srcf in drv.get('append', {}).items():
@@ -55,3 +59,8 @@ def run_replay_driver(drv, keep=False):
     finally:
         if not keep:
             drop_scratch(d)
+        try:
+            fcntl.flock(lock, fcntl.LOCK_UN)
+            lock.close()
+        except Exception:
+            pass
